@@ -30,7 +30,8 @@ EXHAUSTIVE_NOTE = ("param variant: every schedule of N assignments (coroutine / 
                    "synchronous reference) x every causally possible completion order x drain / no drain between consecutive "
                    "assignments; thorough tier: all N<=3; quick tier: all N<=2 and N=3 except the kind tuples with two 2-yield "
                    "generators or (without any plain/synchronous assignment) two 1-yield generators; plus all 32 configurations "
-                   "of the linked-object scenario (keyword order x override kind x 1-2 source changes x completion order x drains)")
+                   "of the linked-object scenario (keyword order x override kind x 1-2 source changes x completion order x drains), all configurations of the "
+                   "update()-context scenario, of synchronous use with <=3 assignments, and of the re-assigning-watcher scenario")
 
 KINDS = ["coro", "agen1", "agen2", "plain", "sref", "bad"]
 # sref = a synchronous reference (a Parameter of another object); bad = an assignment that is rejected (wrong type) and
@@ -78,6 +79,30 @@ def enumerate_cases(tier):
                     if not drain and n == 1:
                         continue
                     yield {"variant": "param", "kinds": list(kinds), "steps": sched, "drain_after_assign": drain}
+    # --- update() context installing an asynchronous reference (complete) -----------------------------------------
+    for kind in ("coro", "agen"):
+        for before in ("default", "plain"):
+            for di in (False, True):
+                for deliver in (False, True):
+                    for da in (False, True):
+                        if deliver and not di:
+                            continue
+                        yield {"variant": "ctx", "kind": kind, "before": before, "drain_inside": di, "deliver_inside": deliver,
+                               "drain_after": da, "kinds": [], "steps": []}
+    # --- synchronous use (complete for <=3 assignments) --------------------------------------------------------------
+    for n in (1, 2, 3):
+        for kinds in itertools.product(("plain", "coro"), repeat=n):
+            if "coro" not in kinds:
+                continue
+            for ctor in (True, False):
+                for ub in (False, True):
+                    for ua in (0, 2):
+                        yield {"variant": "sync", "kinds": list(kinds), "first_in_ctor": ctor, "unrelated_between": ub,
+                               "unrelated_after": ua, "hops": 1 + n % 2, "steps": []}
+    # --- a watcher re-assigning the parameter while an async generator streams into it (complete) --------------------
+    for how in ("direct_coro", "direct_agen", "dependency"):
+        for order in ("old_first", "old_last"):
+            yield {"variant": "restream", "how": how, "order": order, "kinds": [], "steps": []}
     # --- one source feeding a synchronous and an asynchronous link of one object (complete) ---------------------
     for kw in (["y", "x"], ["x", "y"]):
         for ov in ("plain", "coro"):
@@ -233,6 +258,143 @@ async def _run_param(case, res):
             break
         hi = max(hi, o)
     return pending_when_plain
+
+
+async def _run_ctx(case, res):
+    """`with p.param.update(x=<asynchronous reference>)` left before (or after) the reference delivered: leaving the block
+    re-assigns the previous value, which is the latest assignment - the reference's result must never arrive afterwards."""
+    loop = asyncio.get_running_loop()
+    P = type("P", (param.Parameterized,), {"x": param.String(default="init", allow_refs=True)})
+    p = P()
+    seen = []
+    p.param.watch(lambda e: seen.append(e.new), "x")
+    if case["before"] == "plain":
+        p.x = "before"
+    f1, f2 = loop.create_future(), loop.create_future()
+
+    async def coro():
+        return await f1
+
+    async def agen():
+        yield await f1
+        yield await f2
+    prev = p.x
+    cm = p.param.update(x=coro if case["kind"] == "coro" else agen)
+    cm.__enter__()
+    if case["drain_inside"]:
+        await _drain()
+    if case["deliver_inside"]:
+        f1.set_result("inside1")
+        await _drain()
+    cm.__exit__(None, None, None)
+    if p.x != prev:
+        res.fail("C10.latest_assignment_lost", f"ctx {case!r}: after leaving `with update(x=<async reference>)` x is {p.x!r}, it was {prev!r} before")
+    if case["drain_after"]:
+        await _drain()
+    for f, name in ((f1, "late1"), (f2, "late2")):
+        if not f.done():
+            f.set_result(name)
+        await _drain()
+    await _drain(8)
+    if p.x != prev:
+        res.fail("C10.superseded_result_applied", f"ctx {case!r}: the reference installed by the `with update(...)` block delivered "
+                                                  f"{p.x!r} after the block had restored {prev!r}; values seen {seen!r}")
+    return True
+
+
+def _run_sync(case, res):
+    """Synchronous use (no event loop running): every asynchronous reference is run to completion by the library itself."""
+    P = type("P", (param.Parameterized,), {"x": param.String(default="init", allow_refs=True)})
+    Q = type("Q", (param.Parameterized,), {"y": param.String(default="init", allow_refs=True)})
+
+    def mk(result, hops):
+        async def coro():
+            for _ in range(hops):
+                await asyncio.sleep(0)
+            return result
+        return coro
+    kinds = case["kinds"]
+    p = None
+    want = "init"
+    for i, k in enumerate(kinds):
+        val = f"p{i}" if k == "plain" else mk(f"r{i}", case["hops"])
+        if i == 0 and case["first_in_ctor"]:
+            p = P(x=val)
+        else:
+            p = p or P()
+            p.x = val
+        want = f"p{i}" if k == "plain" else f"r{i}"
+        if case["unrelated_between"]:
+            Q(y=mk("other", case["hops"]))
+    for _ in range(case["unrelated_after"]):
+        q = Q()
+        q.y = mk("other", case["hops"] + 1)
+    if case["first_in_ctor"] and len(kinds) == 1:
+        # a reference given to the constructor with no loop running is re-scheduled on a loop that is then abandoned: its
+        # awaitable never completes, so the statement ("once all have completed") says nothing about it
+        res.dontcare += 1
+        return
+    if p.x != want:
+        res.fail("C10.latest_assignment_lost", f"sync {case!r}: final value {p.x!r}, the most recent assignment gives {want!r}")
+
+
+async def _run_restream(case, res):
+    """A watcher of a parameter streamed from an async generator reacts to a streamed item by giving the parameter a new
+    asynchronous reference (directly, or by changing what the bound reference depends on): that is the latest assignment."""
+    loop = asyncio.get_running_loop()
+    S = type("S", (param.Parameterized,), {"v": param.Number(default=0)})
+    P = type("P", (param.Parameterized,), {"x": param.Parameter(default="init", allow_refs=True)})
+    src, p = S(), P()
+    gates = {}
+    seen = []
+
+    def gate(name):
+        return gates.setdefault(name, loop.create_future())
+
+    async def stream(v=0):
+        yield f"g{v}.0"
+        await gate(f"g{v}.1")
+        yield f"g{v}.1"
+        await gate(f"g{v}.2")
+        yield f"g{v}.2"
+
+    async def other():
+        return await gate("other")
+    done = []
+
+    def react(e):
+        seen.append(e.new)
+        if e.new == "g0.0" and not done:
+            done.append(True)
+            if case["how"] == "direct_coro":
+                p.x = other
+            elif case["how"] == "direct_agen":
+                async def again():
+                    yield await gate("other")
+                p.x = again
+            else:
+                src.v = 1                 # the bound reference depends on src.v: a new stream g1.* replaces g0.*
+    p.param.watch(react, "x")
+    p.x = param.bind(stream, src.param.v) if case["how"] == "dependency" else stream
+    await _drain()
+    names = ["g0.1", "g0.2", "other", "g1.1", "g1.2"]
+    if case["order"] == "old_last":
+        names = ["other", "g1.1", "g1.2", "g0.1", "g0.2"]
+    for n_ in names:
+        f = gate(n_)
+        if not f.done():
+            f.set_result("other" if n_ == "other" else None)
+        await _drain()
+    await _drain(8)
+    want = "g1.2" if case["how"] == "dependency" else "other"
+    if p.x != want:
+        res.fail("C10.latest_assignment_lost", f"restream {case!r}: final value {p.x!r}, the reference installed by the watcher gives "
+                                               f"{want!r}; values seen {seen!r}")
+    late = [v for v in seen[seen.index("g0.0") + 1:] if isinstance(v, str) and v.startswith("g0.")] if "g0.0" in seen else []
+    if late:
+        res.fail("C10.superseded_result_applied", f"restream {case!r}: items of the superseded generator were applied after the "
+                                                  f"newer reference was installed: {late!r} (seen {seen!r})")
+    return False
 
 
 async def _run_linked(case, res):
@@ -391,6 +553,10 @@ def execute(case):
             flags["plain_pending"] = await _run_param(case, res)
         elif case["variant"] == "linked":
             flags["plain_pending"] = await _run_linked(case, res)
+        elif case["variant"] == "ctx":
+            flags["plain_pending"] = await _run_ctx(case, res)
+        elif case["variant"] == "restream":
+            flags["plain_pending"] = await _run_restream(case, res)
         else:
             flags["plain_pending"] = await _run_rx(case, res)
         await _drain(4)
@@ -402,10 +568,26 @@ def execute(case):
                 t.cancel()
             await _drain(2)
 
+    if case["variant"] == "sync":
+        import logging
+        alog = logging.getLogger("asyncio")
+        level = alog.level
+        alog.setLevel(logging.CRITICAL)      # the library's throw-away loops report the tasks that die with them: expected noise
+        try:
+            _run_sync(case, res)
+        finally:
+            import gc
+            _utils._running_tasks.clear()
+            gc.collect()
+            alog.setLevel(level)
+        _utils._running_tasks.clear()
+        res.label("variant:sync")
+        res.nontrivial = len(case["kinds"]) >= 2
+        return res
     asyncio.run(main())
     _utils._running_tasks.clear()
-    if case["variant"] == "linked":
-        res.label("variant:linked", "override:" + case["override"])
+    if case["variant"] in ("linked", "ctx", "restream"):
+        res.label("variant:" + case["variant"])
         res.nontrivial = True
         return res
     # completion order vs assignment order
